@@ -7,17 +7,8 @@ Local Open Scope N_scope.
 
 Definition B63 : N := 9223372036854775808.
 
-(** * sorting is a permutation *)
-Lemma id_insert_in w x y l : In y (id_insert w x l) <-> y = x \/ In y l.
-Proof.
-  induction l as [|z t IH]; simpl; [intuition congruence|].
-  destruct (id_leb w x z); simpl; [intuition congruence|]. rewrite IH. intuition congruence.
-Qed.
 Lemma id_sort_in w y l : In y (id_sort w l) <-> In y l.
-Proof.
-  unfold id_sort. induction l as [|x t IH]; simpl; [tauto|].
-  rewrite id_insert_in, IH. intuition congruence.
-Qed.
+Proof. apply id_sort_in'. Qed.
 
 (** * begun transactions *)
 Definition begun (t : txm) (i : txid) : Prop := tm_rec t i <> None \/ tm_child t i <> None.
@@ -104,4 +95,521 @@ Proof.
         apply andb_true_iff in Eft. destruct Eft as [E1 E2]. apply N.eqb_eq in E1, E2. subst.
         exfalso. apply (Hnot kx). left. reflexivity.
       * intros x Hin. apply (Hnot x). right. exact Hin.
+Qed.
+
+(** * how a transaction-manager call changes the set of begun transactions *)
+Lemma bm_fields sorted cur g i T failed count t t' ch :
+  bm_change sorted cur g i T failed count t t' ch ->
+  tm_rec t' = tm_rec t /\ tm_child t' = upd txid_eqb (tm_child t) i (Some g).
+Proof.
+  intro H. inversion H; subst; simpl.
+  - subst t1. destruct failed; [split; reflexivity|].
+    destruct (tm_add_timeout_fields cfg_fixed t hh (TGid g)) as [A [_ C]]. rewrite A, C. split; reflexivity.
+  - auto.
+  - match goal with Hr : tm_remove_timeout _ _ _ = Some _ |- _ => apply tm_remove_timeout_fields in Hr; destruct Hr as [R1 [R2 R3]] end.
+    rewrite R1, R3. auto.
+  - auto.
+Qed.
+
+Lemma rp_fields sorted i r t t' ch :
+  rp_change sorted i r t t' ch ->
+  tm_child t' = tm_child t /\
+  (tm_rec t' = tm_rec t \/ exists v, tm_rec t i <> None /\ tm_rec t' = upd txid_eqb (tm_rec t) i (Some v)) /\
+  (tm_rec t i <> None \/ tm_child t i <> None).
+Proof.
+  intro H. inversion H; subst; simpl.
+  - split; [reflexivity|]. split.
+    + right. eexists. split; [congruence | reflexivity].
+    + left. congruence.
+  - assert (tm_rec t1 = tm_rec t /\ tm_child t1 = tm_child t) as [R1 R3].
+    { destruct rm.
+      - match goal with Hr : tm_remove_timeout _ _ _ = Some _ |- _ => apply tm_remove_timeout_fields in Hr; destruct Hr as [R1 [R2 R3]] end. auto.
+      - match goal with Hr : Some _ = Some _ |- _ => inversion Hr; subst end. auto. }
+    rewrite R1, R3. split; [reflexivity|]. split; [left; reflexivity | right; congruence].
+Qed.
+
+Lemma begun_evolution w h b sf sd terr t t' ch :
+  tm_step cfg_fixed w h b sf sd terr t = Some (TmOk t' ch) ->
+  (forall j, begun t j -> begun t' j) /\
+  (forall j, begun t' j -> begun t j \/ (j = b_id b /\ is_request b = true)) /\
+  begun t' (b_id b) /\
+  (is_request b = false -> begun t (b_id b)).
+Proof.
+  intro H. apply tm_step_inv in H.
+  assert (Hupd : forall (v : N * N), (forall j, begun t j -> begun (set_rec t (b_id b) v) j) /\
+            (forall j, begun (set_rec t (b_id b) v) j -> begun t j \/ j = b_id b) /\
+            begun (set_rec t (b_id b) v) (b_id b)).
+  { intro v. unfold begun. simpl. unfold upd. repeat split.
+    - intros j [Hj | Hj]; [left | right; exact Hj]. destruct (txid_eqb j (b_id b)); [discriminate | exact Hj].
+    - intros j [Hj | Hj]; [|left; right; exact Hj]. destruct (txid_eqb j (b_id b)) eqn:E.
+      + right. apply txid_eqb_eq. exact E.
+      + left. left. exact Hj.
+    - left. rewrite txid_eqb_refl. discriminate. }
+  inversion H; subst.
+  - destruct (Hupd (timeout_height h T, st)) as [A [B C]].
+    split; [exact A|]. split; [|split; [exact C | congruence]].
+    intros j Hj. destruct (B j Hj); [left; assumption | right; split; assumption].
+  - destruct (Hupd (hh, s')) as [A [B C]].
+    split; [exact A|]. split; [|split; [exact C | congruence]].
+    intros j Hj. destruct (B j Hj) as [Hb | ->]; [left; assumption|]. left. left. congruence.
+  - destruct (Hupd (timeout_height h (u64_of_Z (b_T b)), st)) as [A [B C]].
+    split; [exact A|]. split; [|split; [exact C | congruence]].
+    intros j Hj. destruct (B j Hj); [left; assumption | right; split; assumption].
+  - match goal with Hb : bm_change _ _ _ _ _ _ _ _ _ _ |- _ => apply bm_fields in Hb; destruct Hb as [R C] end.
+    unfold begun. rewrite R, C. unfold upd. split; [|split; [|split]].
+    + intros j [Hj | Hj]; [left; exact Hj | right]. destruct (txid_eqb j (b_id b)); [discriminate | exact Hj].
+    + intros j [Hj | Hj]; [left; left; exact Hj|]. destruct (txid_eqb j (b_id b)) eqn:E.
+      * right. split; [apply txid_eqb_eq; exact E | assumption].
+      * left. right. exact Hj.
+    + right. rewrite txid_eqb_refl. discriminate.
+    + congruence.
+  - match goal with Hb : rp_change _ _ _ _ _ _ |- _ => apply rp_fields in Hb; destruct Hb as [C [R Hbg]] end.
+    unfold begun. rewrite C. destruct R as [R | [v [Hex R]]]; rewrite R; unfold upd.
+    + split; [auto|]. split; [intros j Hj; left; exact Hj|]. split; [exact Hbg | intros _; exact Hbg].
+    + split; [|split; [|split]].
+      * intros j [Hj | Hj]; [left | right; exact Hj]. destruct (txid_eqb j (b_id b)); [discriminate | exact Hj].
+      * intros j [Hj | Hj]; [|left; right; exact Hj]. destruct (txid_eqb j (b_id b)) eqn:E.
+        -- apply txid_eqb_eq in E. subst j. left. left. exact Hex.
+        -- left. left. exact Hj.
+      * left. rewrite txid_eqb_refl. discriminate.
+      * intros _. exact Hbg.
+Qed.
+
+(** * the group-structure clauses *)
+Record GInv (w : world) (t : txm) : Prop := {
+  gi_child_glob : forall i g, tm_child t i = Some g ->
+                              exists gi, tm_glob t g = Some gi /\ child_lookup i (g_children gi) <> None;
+  gi_glob_child : forall g gi i, tm_glob t g = Some gi -> child_lookup i (g_children gi) <> None ->
+                                 tm_child t i = Some g;
+  gi_nodup : forall g gi, tm_glob t g = Some gi -> NoDup (map fst (g_children gi));
+  gi_excl : forall i, tm_child t i <> None -> tm_rec t i = None;
+  gi_samehub : forall i g sf sd, tm_child t i = Some g ->
+                                 svc_lookup w (fst (fst i)) = Some sf -> svc_lookup w (snd (fst i)) = Some sd ->
+                                 sv_hub sf = sv_hub sd
+}.
+
+Lemma binv_ginv w t c : BInv w t c -> GInv w t.
+Proof. intro I. destruct I. constructor; assumption. Qed.
+
+Lemma child_lookup_keys i l : child_lookup i l <> None <-> In i (map fst l).
+Proof.
+  split.
+  - intro H. destruct (child_lookup i l) eqn:E; [|contradiction].
+    apply child_lookup_in in E. apply (in_map fst) in E. exact E.
+  - intro H. destruct (in_child_lookup _ _ H) as [s E]. rewrite E. discriminate.
+Qed.
+
+Lemma cm_keys gi i r gi' rm :
+  child_lookup i (g_children gi) <> None -> cm_change gi i r gi' rm ->
+  map fst (g_children gi') = map fst (g_children gi) /\ g_count gi' = g_count gi /\ g_height gi' = g_height gi.
+Proof.
+  intros Hin H.
+  assert (Hk : forall s l, child_lookup i l <> None -> map fst (child_set i s l) = map fst l).
+  { intros s l Hl. rewrite child_set_keys. destruct (child_lookup i l); [reflexivity | contradiction]. }
+  inversion H; subst; cbn [g_children g_count g_height]; rewrite Hk; auto.
+  - rewrite children_all_keys. auto.
+  - rewrite child_lookup_all. destruct (child_lookup i (g_children gi)); [discriminate | contradiction].
+Qed.
+
+Lemma bm_struct sorted cur g i T failed count t t' ch :
+  bm_change sorted cur g i T failed count t t' ch ->
+  exists gi', tm_glob t' = upd gid_eqb (tm_glob t) g (Some gi') /\
+    map fst (g_children gi') = (match tm_glob t g with Some gi => map fst (g_children gi) | None => [] end) ++ [i] /\
+    (match tm_glob t g with Some gi => child_lookup i (g_children gi) = None | None => True end).
+Proof.
+  intro H. inversion H; subst.
+  - eexists. split; [|split].
+    + simpl. subst t1. destruct failed; [reflexivity|].
+      destruct (tm_add_timeout_fields cfg_fixed t hh (TGid g)) as [_ [A _]]. rewrite A. reflexivity.
+    + rewrite H0. reflexivity.
+    + rewrite H0. exact I.
+  - eexists. split; [reflexivity|]. rewrite H0. split; [|assumption].
+    cbn [g_children]. subst kids. rewrite child_set_keys, H1. reflexivity.
+  - eexists. split; [|split].
+    + simpl. apply tm_remove_timeout_fields in H4. destruct H4 as [_ [A _]]. rewrite A. reflexivity.
+    + rewrite H0. cbn [g_children]. subst kids. rewrite child_set_keys, child_lookup_all, H1, children_all_keys. reflexivity.
+    + rewrite H0. assumption.
+  - eexists. split; [reflexivity|]. rewrite H0. split; [|assumption].
+    cbn [g_children]. subst kids. rewrite child_set_keys, H1. reflexivity.
+Qed.
+
+Lemma ginv_add_child w t t' g gi' i :
+  GInv w t -> ~ begun t i ->
+  tm_rec t' = tm_rec t ->
+  tm_child t' = upd txid_eqb (tm_child t) i (Some g) ->
+  tm_glob t' = upd gid_eqb (tm_glob t) g (Some gi') ->
+  map fst (g_children gi') = (match tm_glob t g with Some gi => map fst (g_children gi) | None => [] end) ++ [i] ->
+  (forall sf sd, svc_lookup w (fst (fst i)) = Some sf -> svc_lookup w (snd (fst i)) = Some sd -> sv_hub sf = sv_hub sd) ->
+  GInv w t'.
+Proof.
+  intros [G1 G2 G3 G4 G5] Hnb Hr Hc Hg Hkeys Hhub.
+  assert (Hold : forall j, In j (match tm_glob t g with Some gi => map fst (g_children gi) | None => [] end) ->
+                           tm_child t j = Some g).
+  { intros j Hj. destruct (tm_glob t g) as [gi|] eqn:E; [|contradiction].
+    apply (G2 g gi j E). apply child_lookup_keys. exact Hj. }
+  constructor.
+  - intros j g0 Hj. rewrite Hc in Hj. rewrite Hg. unfold upd in *.
+    destruct (txid_eqb j i) eqn:E.
+    + inversion Hj; subst g0. rewrite gid_eqb_refl. exists gi'. split; [reflexivity|].
+      apply child_lookup_keys. rewrite Hkeys. apply in_or_app. right. left. symmetry. apply txid_eqb_eq. exact E.
+    + destruct (G1 _ _ Hj) as [gi0 [Hg0 Hl0]]. destruct (gid_eqb g0 g) eqn:Eg.
+      * apply gid_eqb_eq in Eg. subst g0. exists gi'. split; [reflexivity|].
+        apply child_lookup_keys. rewrite Hkeys. apply in_or_app. left. rewrite Hg0.
+        apply child_lookup_keys. exact Hl0.
+      * exists gi0. split; assumption.
+  - intros g0 gi0 j Hg0 Hj. rewrite Hg in Hg0. rewrite Hc. unfold upd in *.
+    destruct (gid_eqb g0 g) eqn:Eg.
+    + apply gid_eqb_eq in Eg. subst g0. inversion Hg0; subst gi0.
+      apply child_lookup_keys in Hj. rewrite Hkeys in Hj. apply in_app_or in Hj.
+      destruct Hj as [Hj | [Hj | []]].
+      * destruct (txid_eqb j i); [reflexivity | apply Hold; exact Hj].
+      * subst j. rewrite txid_eqb_refl. reflexivity.
+    + pose proof (G2 _ _ _ Hg0 Hj) as Hcj. destruct (txid_eqb j i) eqn:E; [|exact Hcj].
+      apply txid_eqb_eq in E. subst j. exfalso. apply Hnb. right. congruence.
+  - intros g0 gi0 Hg0. rewrite Hg in Hg0. unfold upd in Hg0. destruct (gid_eqb g0 g) eqn:Eg.
+    + inversion Hg0; subst gi0. rewrite Hkeys. apply NoDup_app_end.
+      * destruct (tm_glob t g) as [gi|] eqn:E; [eapply G3; eauto | constructor].
+      * intro Hin. apply Hnb. right. rewrite (Hold i Hin). discriminate.
+    + eapply G3; eauto.
+  - intros j Hj. rewrite Hr. rewrite Hc in Hj. unfold upd in Hj.
+    destruct (txid_eqb j i) eqn:E.
+    + apply txid_eqb_eq in E. subst j. destruct (tm_rec t i) eqn:Er; [|reflexivity].
+      exfalso. apply Hnb. left. congruence.
+    + apply G4. exact Hj.
+  - intros j g0 sf0 sd0 Hj Hf0 Hd0. rewrite Hc in Hj. unfold upd in Hj.
+    destruct (txid_eqb j i) eqn:E.
+    + apply txid_eqb_eq in E. subst j. apply Hhub; assumption.
+    + eapply G5; eauto.
+Qed.
+
+Lemma ginv_same_keys w t t' g gi gi' :
+  GInv w t -> tm_glob t g = Some gi ->
+  tm_rec t' = tm_rec t -> tm_child t' = tm_child t ->
+  tm_glob t' = upd gid_eqb (tm_glob t) g (Some gi') ->
+  map fst (g_children gi') = map fst (g_children gi) ->
+  GInv w t'.
+Proof.
+  intros [G1 G2 G3 G4 G5] Hgl Hr Hc Hg Hkeys.
+  constructor.
+  - intros j g0 Hj. rewrite Hc in Hj. rewrite Hg. unfold upd.
+    destruct (G1 _ _ Hj) as [gi0 [Hg0 Hl0]]. destruct (gid_eqb g0 g) eqn:Eg.
+    + apply gid_eqb_eq in Eg. subst g0. exists gi'. split; [reflexivity|].
+      apply child_lookup_keys. rewrite Hkeys. apply child_lookup_keys. congruence.
+    + exists gi0. split; assumption.
+  - intros g0 gi0 j Hg0 Hj. rewrite Hg in Hg0. rewrite Hc. unfold upd in Hg0.
+    destruct (gid_eqb g0 g) eqn:Eg.
+    + apply gid_eqb_eq in Eg. subst g0. inversion Hg0; subst gi0.
+      apply (G2 g gi j Hgl). apply child_lookup_keys. rewrite <- Hkeys. apply child_lookup_keys. exact Hj.
+    + eapply G2; eauto.
+  - intros g0 gi0 Hg0. rewrite Hg in Hg0. unfold upd in Hg0. destruct (gid_eqb g0 g).
+    + inversion Hg0; subst gi0. rewrite Hkeys. eapply G3; eauto.
+    + eapply G3; eauto.
+  - intros j Hj. rewrite Hr. rewrite Hc in Hj. apply G4. exact Hj.
+  - intros j g0 sf0 sd0 Hj. rewrite Hc in Hj. eapply G5; eauto.
+Qed.
+
+Lemma ginv_set_rec w t i v :
+  GInv w t -> tm_child t i = None -> GInv w (set_rec t i v).
+Proof.
+  intros [G1 G2 G3 G4 G5] Hn. constructor; simpl; auto.
+  intros j Hj. unfold upd. destruct (txid_eqb j i) eqn:E.
+  - apply txid_eqb_eq in E. subst j. contradiction.
+  - apply G4. exact Hj.
+Qed.
+
+Lemma ginv_step w h b sf sd terr t t' ch :
+  GInv w t ->
+  svc_lookup w (b_from b) = Some sf -> svc_lookup w (b_to b) = Some sd ->
+  tm_step cfg_fixed w h b sf sd terr t = Some (TmOk t' ch) ->
+  (is_request b = true -> (sv_hub sf =? sv_hub sd) = true -> ~ begun t (b_id b)) ->
+  GInv w t'.
+Proof.
+  intros GI Esf Esd H Hfresh. apply tm_step_inv in H.
+  assert (Hinter : (sv_hub sf =? sv_hub sd) = false -> tm_child t (b_id b) = None).
+  { intro Eh. destruct (tm_child t (b_id b)) as [g|] eqn:Ec; [|reflexivity].
+    exfalso. pose proof (gi_samehub _ _ GI (b_id b) g sf sd Ec Esf Esd) as Hh.
+    apply N.eqb_neq in Eh. contradiction. }
+  inversion H; subst.
+  - apply ginv_set_rec; auto.
+  - apply ginv_set_rec; auto.
+  - apply ginv_set_rec; [exact GI|].
+    destruct (tm_child t (b_id b)) eqn:Ec; [|reflexivity].
+    exfalso. apply (Hfresh ltac:(assumption) ltac:(assumption)). right. congruence.
+  - match goal with Hb : bm_change _ _ _ _ _ _ _ _ _ _ |- _ =>
+      pose proof (bm_fields _ _ _ _ _ _ _ _ _ _ Hb) as [R C];
+      pose proof (bm_struct _ _ _ _ _ _ _ _ _ _ Hb) as [gi' [Hg [Hk _]]] end.
+    eapply ginv_add_child; eauto.
+    intros sf0 sd0 Hf0 Hd0. unfold b_id in Hf0, Hd0. simpl in Hf0, Hd0.
+    rewrite Esf in Hf0. rewrite Esd in Hd0. inversion Hf0; inversion Hd0; subst.
+    apply N.eqb_eq. assumption.
+  - match goal with Hb : rp_change _ _ _ _ _ _ |- _ => inversion Hb; subst end.
+    + apply ginv_set_rec; [exact GI|].
+      destruct (tm_child t (b_id b)) eqn:Ec; [|reflexivity].
+      exfalso. pose proof (gi_excl _ _ GI (b_id b)) as X. rewrite Ec in X.
+      specialize (X ltac:(discriminate)). congruence.
+    + match goal with Hc : cm_change _ _ _ _ _ |- _ =>
+        pose proof (cm_keys _ _ _ _ _ ltac:(eassumption) Hc) as [Hk _] end.
+      assert (tm_rec t1 = tm_rec t /\ tm_child t1 = tm_child t /\ tm_glob t1 = tm_glob t) as [R1 [R3 R2]].
+      { destruct rm.
+        - match goal with Hr : tm_remove_timeout _ _ _ = Some _ |- _ => apply tm_remove_timeout_fields in Hr; destruct Hr as [R1 [R2 R3]] end. auto.
+        - match goal with Hr : Some _ = Some _ |- _ => inversion Hr; subst end. auto. }
+      eapply (ginv_same_keys w t _ g gi gi'); eauto; simpl; congruence.
+Qed.
+
+(** * preservation of [BInv] *)
+Lemma same_core_counters c c1 :
+  same_core c c1 ->
+  (forall f t, IC c1 f t = IC c f t) /\ (forall f t, RC c1 f t = RC c f t) /\
+  (forall f t, SIC c1 t f = SIC c t f) /\ (forall f t, SRC c1 t f = SRC c t f) /\
+  (forall k, get_rec c1 k = get_rec c k).
+Proof.
+  intros [A _]. assert (G : forall k, get_rec c1 k = get_rec c k) by (apply get_rec_ext; exact A).
+  unfold IC, RC, SIC, SRC. repeat split; intros; rewrite G; reflexivity.
+Qed.
+
+Lemma binv_request w t t' c c1 b serial :
+  BInv w t c -> same_core c c1 -> GInv w t' ->
+  (forall j, begun t j -> begun t' j) ->
+  (forall j, begun t' j -> begun t j \/ j = b_id b) ->
+  begun t' (b_id b) ->
+  b_idx b = wrap64 (IC c (b_from b) (b_to b) + 1) -> b_idx b < B63 ->
+  BInv w t' (req_step c1 b (get_rec c (b_from b)) serial).
+Proof.
+  intros I Hsc GI Hmono Hnew Hself Hidx Hsmall.
+  destruct (same_core_counters _ _ Hsc) as [EIC [ERC [ESIC [ESRC EG]]]].
+  destruct Hsc as [_ [Ereq Ercpt]].
+  assert (Hnw : wrap64 (IC c (b_from b) (b_to b) + 1) = IC c (b_from b) (b_to b) + 1).
+  { apply wrap64_small. pose proof (b_small _ _ _ I (b_from b) (b_to b)). unfold B63, W64 in *. lia. }
+  rewrite Hnw in Hidx.
+  rewrite <- (EG (b_from b)).
+  assert (HIC : forall f t0, IC (req_step c1 b (get_rec c1 (b_from b)) serial) f t0 =
+                            if (f =? b_from b) && (t0 =? b_to b) then b_idx b else IC c f t0).
+  { intros f t0. rewrite req_step_IC. rewrite !EIC, Hnw, Hidx. reflexivity. }
+  assert (HRC : forall f t0, RC (req_step c1 b (get_rec c1 (b_from b)) serial) f t0 = RC c f t0).
+  { intros. rewrite req_step_RC. apply ERC. }
+  assert (HSIC : forall t0 f, SIC (req_step c1 b (get_rec c1 (b_from b)) serial) t0 f =
+                              if (t0 =? b_to b) && (f =? b_from b) then b_idx b else SIC c t0 f).
+  { intros. rewrite req_step_SIC. rewrite ESIC. reflexivity. }
+  assert (HSRC : forall t0 f, SRC (req_step c1 b (get_rec c1 (b_from b)) serial) t0 f = SRC c t0 f).
+  { intros. rewrite req_step_SRC. apply ESRC. }
+  destruct (req_step_fields c1 b (get_rec c1 (b_from b)) serial) as [Freq [Frcpt _]].
+  destruct GI as [G1 G2 G3 G4 G5].
+  constructor; try assumption.
+  - intros f t0. rewrite HIC. destruct ((f =? b_from b) && (t0 =? b_to b)); [exact Hsmall | apply (b_small _ _ _ I)].
+  - intros f t0 x Hb. rewrite HIC. destruct (Hnew _ Hb) as [Hold | Heq].
+    + pose proof (b_begun_le _ _ _ I _ _ _ Hold) as Hle.
+      destruct ((f =? b_from b) && (t0 =? b_to b)) eqn:E; [|exact Hle].
+      apply andb_true_iff in E. destruct E as [E1 E2]. apply N.eqb_eq in E1, E2. subst. lia.
+    + unfold b_id in Heq. inversion Heq; subst. rewrite !N.eqb_refl. simpl. lia.
+  - intros f t0 x Hx. rewrite HIC in Hx.
+    destruct ((f =? b_from b) && (t0 =? b_to b)) eqn:E.
+    + apply andb_true_iff in E. destruct E as [E1 E2]. apply N.eqb_eq in E1, E2. subst f t0.
+      destruct (N.eq_dec x (b_idx b)) as [->|Hne]; [exact Hself|].
+      apply Hmono. apply (b_le_begun _ _ _ I). lia.
+    + apply Hmono. apply (b_le_begun _ _ _ I). exact Hx.
+  - intros f t0 x. rewrite Freq, Ereq, HIC. unfold upd.
+    destruct (txid_eqb (f, t0, x) (b_id b)) eqn:E.
+    + apply txid_eqb_eq in E. unfold b_id in E. inversion E; subst. rewrite !N.eqb_refl. simpl.
+      split; [intros _; lia | intros _; discriminate].
+    + rewrite (b_req_iff _ _ _ I). apply txid_eqb_neq in E.
+      destruct ((f =? b_from b) && (t0 =? b_to b)) eqn:E2; [|tauto].
+      apply andb_true_iff in E2. destruct E2 as [E3 E4]. apply N.eqb_eq in E3, E4. subst f t0.
+      assert (x <> b_idx b) by (intro; subst; apply E; reflexivity). lia.
+  - intros f t0. rewrite HSIC, HIC, (b_mirror_ic _ _ _ I). rewrite andb_comm. reflexivity.
+  - intros f t0. rewrite HSRC, HRC. apply (b_mirror_rc _ _ _ I).
+  - intros f t0. rewrite HRC, HIC. pose proof (b_rc_le _ _ _ I f t0).
+    destruct ((f =? b_from b) && (t0 =? b_to b)) eqn:E; [|assumption].
+    apply andb_true_iff in E. destruct E as [E1 E2]. apply N.eqb_eq in E1, E2. subst. lia.
+  - intros i Hi. rewrite Frcpt, Ercpt in Hi. apply Hmono. apply (b_rcpt _ _ _ I). exact Hi.
+Qed.
+
+(** what the receipt branch of [process_ibtp] may do to the counters *)
+Record rc_update (t : txm) (c c2 : ichain) : Prop := {
+  ru_IC : forall f t0, IC c2 f t0 = IC c f t0;
+  ru_SIC : forall f t0, SIC c2 t0 f = SIC c t0 f;
+  ru_req : i_req c2 = i_req c;
+  ru_rcpt : i_rcpt c2 = i_rcpt c;
+  ru_mirror : (forall f t0, SRC c t0 f = RC c f t0) -> forall f t0, SRC c2 t0 f = RC c2 f t0;
+  ru_RC : forall f t0, RC c2 f t0 = RC c f t0 \/ begun t (f, t0, RC c2 f t0)
+}.
+
+Lemma binv_response w t t' c c2 b serial :
+  BInv w t c -> rc_update t c c2 -> GInv w t' ->
+  (forall j, begun t j -> begun t' j) ->
+  (forall j, begun t' j -> begun t j) ->
+  begun t (b_id b) ->
+  BInv w t' (put_rcpt c2 (b_id b) serial).
+Proof.
+  intros I [UIC USIC Ureq Urcpt Umir URC] GI Hmono Hnew Hself.
+  assert (E : forall k, get_rec (put_rcpt c2 (b_id b) serial) k = get_rec c2 k) by reflexivity.
+  destruct GI as [G1 G2 G3 G4 G5].
+  constructor; try assumption; unfold IC, RC, SIC, SRC in *; simpl i_req; simpl i_rcpt.
+  - intros f t0. rewrite E, UIC. apply (b_small _ _ _ I).
+  - intros f t0 x Hb. rewrite E, UIC. apply (b_begun_le _ _ _ I). apply Hnew. exact Hb.
+  - intros f t0 x Hx. rewrite E, UIC in Hx. apply Hmono. apply (b_le_begun _ _ _ I). exact Hx.
+  - intros f t0 x. rewrite Ureq, E, UIC. apply (b_req_iff _ _ _ I).
+  - intros f t0. rewrite !E, USIC, UIC. apply (b_mirror_ic _ _ _ I).
+  - intros f t0. rewrite !E. apply Umir. apply (b_mirror_rc _ _ _ I).
+  - intros f t0. rewrite !E, UIC. destruct (URC f t0) as [H | H].
+    + unfold RC in H. rewrite H. apply (b_rc_le _ _ _ I).
+    + apply (b_begun_le _ _ _ I) in H. unfold IC, RC in H. lia.
+  - intros i Hi. unfold upd in Hi. destruct (txid_eqb i (b_id b)) eqn:Ei.
+    + apply txid_eqb_eq in Ei. subst i. apply Hmono. exact Hself.
+    + rewrite Urcpt in Hi. apply Hmono. apply (b_rcpt _ _ _ I). exact Hi.
+Qed.
+
+Lemma rc_update_same t c c1 : same_core c c1 -> rc_update t c c1.
+Proof.
+  intro Hsc. destruct (same_core_counters _ _ Hsc) as [EIC [ERC [ESIC [ESRC EG]]]].
+  destruct Hsc as [_ [Ereq Ercpt]].
+  constructor; auto.
+  - intros Hm f t0. rewrite ESRC, ERC. apply Hm.
+Qed.
+
+Lemma rc_update_set_dest t c c1 f t0 x :
+  same_core c c1 -> begun t (f, t0, x) ->
+  rc_update t c (set_dest c1 f t0 x (get_rec c f)).
+Proof.
+  intros Hsc Hb. destruct (same_core_counters _ _ Hsc) as [EIC [ERC [ESIC [ESRC EG]]]].
+  destruct Hsc as [_ [Ereq Ercpt]].
+  rewrite <- (EG f).
+  destruct (set_dest_fields c1 f t0 x (get_rec c1 f)) as [F1 [F2 _]].
+  constructor.
+  - intros. rewrite set_dest_IC by reflexivity. apply EIC.
+  - intros. rewrite set_dest_SIC by reflexivity. apply ESIC.
+  - congruence.
+  - congruence.
+  - intros Hm f' t'. rewrite set_dest_SRC, set_dest_RC by reflexivity. rewrite ESRC, ERC, Hm.
+    rewrite (andb_comm (t' =? t0)). reflexivity.
+  - intros f' t'. rewrite set_dest_RC by reflexivity.
+    destruct ((f' =? f) && (t' =? t0)) eqn:E.
+    + right. apply andb_true_iff in E. destruct E as [E1 E2]. apply N.eqb_eq in E1, E2. subst. exact Hb.
+    + left. apply ERC.
+Qed.
+
+Lemma rc_update_multi t c c1 kids c2 :
+  same_core c c1 -> (forall k, In k kids -> begun t k) ->
+  handle_multi c1 kids = (c2, true) -> rc_update t c c2.
+Proof.
+  intros Hsc Hb Hm. destruct (same_core_counters _ _ Hsc) as [EIC [ERC [ESIC [ESRC EG]]]].
+  destruct Hsc as [_ [Ereq Ercpt]].
+  (* re-run the specification lemma; atoi_ok follows from the run having succeeded *)
+  assert (Hok : forall k, In k kids -> atoi_ok k = true).
+  { clear - Hm. revert c1 Hm. induction kids as [|k r IH]; intros c1 Hm k0 Hk0; [destruct Hk0|].
+    simpl in Hm. destruct (atoi_ok k) eqn:Ea; [|inversion Hm].
+    destruct Hk0 as [Hk | Hk].
+    - subst k0. exact Ea.
+    - destruct k as [[f t0] x]. eapply IH; eauto. }
+  destruct (handle_multi_spec kids c1 Hok) as [c' [E [HIC [HSIC [Hreq [Hrcpt [_ [_ [Hmir [Hrc _]]]]]]]]]].
+  rewrite Hm in E. inversion E; subst c'.
+  constructor.
+  - intros. rewrite HIC. apply EIC.
+  - intros. rewrite HSIC. apply ESIC.
+  - congruence.
+  - congruence.
+  - intros Hmi. apply Hmir. intros f t0. rewrite ESRC, ERC. apply Hmi.
+  - intros f t0. destruct (Hrc f t0) as [H | [x [Hin Hx]]].
+    + left. rewrite H. apply ERC.
+    + right. rewrite Hx. apply Hb. exact Hin.
+Qed.
+
+(** notifications only exist between different hubs, for ids whose request was recorded *)
+Lemma is_notification_true w c b sf sd :
+  svc_lookup w (b_from b) = Some sf -> svc_lookup w (b_to b) = Some sd ->
+  is_notification w c b = true ->
+  (sv_hub sf =? sv_hub sd) = false /\ is_request b = true /\ i_req c (b_id b) <> None.
+Proof.
+  intros Ef Ed. unfold is_notification. rewrite Ef, Ed.
+  rewrite !andb_true_iff. intros [[H1 H2] H3]. apply negb_true_iff in H1.
+  repeat split; auto. destruct (i_req c (b_id b)); [discriminate | discriminate].
+Qed.
+
+Theorem binv_handle w h serial b t c t' c' r :
+  BInv w t c -> b_idx b < B63 ->
+  handle_ibtp cfg_fixed w h serial b t c = Some (t', c', r) ->
+  BInv w t' c' /\ (r_ok r = false -> t' = t /\ c' = c /\ r_chains r = []).
+Proof.
+  intros I Hsmall H. apply handle_fixed_inv in H.
+  destruct H as [e | sf sd terr notif t' ch af Esf Esd Ec Et nc pc Haf].
+  - split; [exact I | intros _; auto].
+  - destruct (check_fixed _ _ _ _ _ _ Ec) as [_ [Hnotif [_ Hidx]]].
+    pose proof (begun_evolution _ _ _ _ _ _ _ _ _ Et) as [Hmono [Hnew [Hself Hresp]]].
+    pose proof (notify_fields cfg_fixed w c h sf sd ch) as Hsc. fold nc in Hsc.
+    assert (Hfresh : is_request b = true -> (sv_hub sf =? sv_hub sd) = true -> ~ begun t (b_id b)).
+    { intros Hrq Hhub Hb.
+      assert (Hn : notif = false).
+      { rewrite Hnotif. unfold is_notification. rewrite Esf, Esd, Hhub. reflexivity. }
+      unfold expected_index in Hidx. rewrite Hrq, Hn in Hidx. simpl in Hidx.
+      pose proof (b_begun_le _ _ _ I _ _ _ Hb) as Hle.
+      pose proof (b_small _ _ _ I (b_from b) (b_to b)) as Hs.
+      fold (IC c (b_from b) (b_to b)) in Hidx. rewrite wrap64_small in Hidx by (unfold B63, W64 in *; lia).
+      simpl in Hle. lia. }
+    pose proof (ginv_step _ _ _ _ _ _ _ _ _ (binv_ginv _ _ _ I) Esf Esd Et Hfresh) as GI'.
+    destruct (is_request b && negb notif) eqn:EA.
+    + (* a plain request *)
+      apply andb_true_iff in EA. destruct EA as [Hrq Hnn]. apply negb_true_iff in Hnn.
+      assert (Epc : fst pc = req_step (fst nc) b (get_rec c (b_from b)) serial).
+      { unfold pc, process_ibtp. rewrite Hrq, Hnn. reflexivity. }
+      unfold expected_index in Hidx. rewrite Hrq, Hnn in Hidx. simpl in Hidx.
+      assert (Hnb : ~ begun t (b_id b)).
+      { intro Hb. pose proof (b_begun_le _ _ _ I _ _ _ Hb) as Hle.
+        pose proof (b_small _ _ _ I (b_from b) (b_to b)) as Hs.
+        fold (IC c (b_from b) (b_to b)) in Hidx. rewrite wrap64_small in Hidx by (unfold B63, W64 in *; lia).
+        simpl in Hle. lia. }
+      assert (I' : BInv w t' (fst pc)).
+      { rewrite Epc. apply (binv_request w t t' c (fst nc) b serial I Hsc GI' Hmono); auto.
+        intros j Hj. destruct (Hnew j Hj) as [? | [? _]]; auto. }
+      assert (Haf' : af = false).
+      { rewrite Haf, Epc. destruct (req_step_rec_new (fst nc) b (get_rec c (b_from b)) serial) as [A B].
+        unfold rec_missing. destruct (i_rec _ (b_from b)); [|contradiction]. destruct (i_rec _ (b_to b)); [|contradiction].
+        apply andb_false_r. }
+      rewrite Haf'. split; [exact I' | simpl; discriminate].
+    + (* a receipt or an inter-hub notice *)
+      assert (Hbg : begun t (b_id b)).
+      { destruct (is_request b) eqn:Hrq; [|apply Hresp; reflexivity].
+        simpl in EA. apply negb_false_iff in EA. rewrite Hnotif in EA.
+        destruct (is_notification_true _ _ _ _ _ Esf Esd EA) as [_ [_ Hreq]].
+        destruct b as [bf bt bi bty bT bg bx]. unfold b_id in *. simpl in *.
+        apply (b_le_begun _ _ _ I). apply (b_req_iff _ _ _ I). exact Hreq. }
+      assert (Hnew' : forall j, begun t' j -> begun t j).
+      { intros j Hj. destruct (Hnew j Hj) as [? | [-> _]]; auto. }
+      assert (Hkids : forall k, In k (c_child ch) -> begun t k).
+      { apply tm_step_inv in Et. inversion Et; subst; simpl; try tauto.
+        - match goal with Hr : rp_change _ _ _ _ _ _ |- _ => inversion Hr; subst; simpl; try tauto end.
+          intros k Hk. apply id_sort_in in Hk.
+          match goal with Hc : cm_change _ _ _ _ _ |- _ =>
+            pose proof (cm_keys _ _ _ _ _ ltac:(eassumption) Hc) as [Hkk _] end.
+          rewrite Hkk in Hk. right.
+          rewrite (g_glob_child _ _ _ I g gi k ltac:(assumption)); [discriminate|].
+          apply child_lookup_keys. exact Hk. }
+      assert (Hru : exists c2, fst pc = put_rcpt c2 (b_id b) serial /\ rc_update t c c2 /\
+                               (forall k, i_rec (fst nc) k <> None -> i_rec c2 k <> None)).
+      { unfold pc, process_ibtp. rewrite EA.
+        destruct (is_final (c_cur ch)).
+        - destruct (c_child ch) as [|k0 kr] eqn:Ek.
+          + eexists. split; [reflexivity|]. split.
+            * apply rc_update_set_dest; [exact Hsc|]. destruct b; exact Hbg.
+            * intros k Hk. apply set_dest_rec_mono. exact Hk.
+          + destruct (handle_multi (fst nc) (k0 :: kr)) as [c2 ok] eqn:Ehm.
+            assert (Hatoi : forall k, In k (k0 :: kr) -> atoi_ok k = true).
+            { intros [[kf kt] kx] Hk. apply Hkids in Hk.
+              pose proof (b_begun_le _ _ _ I _ _ _ Hk) as Hle. pose proof (b_small _ _ _ I kf kt) as Hs.
+              unfold atoi_ok, B63 in *. simpl. apply N.ltb_lt. lia. }
+            destruct (handle_multi_spec (k0 :: kr) (fst nc) Hatoi) as [c2' [E2 [_ [_ [_ [_ [_ [Hmono2 _]]]]]]]].
+            rewrite Ehm in E2. inversion E2; subst c2' ok.
+            eexists. split; [reflexivity|]. split.
+            * eapply rc_update_multi; eauto.
+            * exact Hmono2.
+        - eexists. split; [reflexivity|]. split; [apply rc_update_same; exact Hsc | auto]. }
+      destruct Hru as [c2 [Epc [Hru Hrmono]]].
+      assert (I' : BInv w t' (fst pc)).
+      { rewrite Epc. apply (binv_response w t t' c c2 b serial I Hru GI' Hmono Hnew' Hbg). }
+      assert (Haf' : af = false).
+      { rewrite Haf, Epc. destruct b as [bf bt bi bty bT bg bx]. unfold b_id in *. simpl in *.
+        destruct (binv_rec_exists _ _ _ _ _ _ I Hbg) as [A B].
+        destruct Hsc as [Erec _]. rewrite <- Erec in A, B.
+        apply Hrmono in A. apply Hrmono in B.
+        unfold rec_missing. simpl. destruct (i_rec c2 bf); [|contradiction]. destruct (i_rec c2 bt); [|contradiction].
+        apply andb_false_r. }
+      rewrite Haf'. split; [exact I' | simpl; discriminate].
 Qed.
